@@ -210,7 +210,7 @@ def tlc(module_path, cfg_path=None, workers=None, env=None, timeout=3600, simula
         # semantic / parse errors are tool errors, not property violations
         bad = [x for x in r.errors if not x.startswith("Error: The behavior up to")]
         if bad and not r.violated:
-            raise ToolError("TLC error on %s:\n%s" % (name, r.out[-6000:]))
+            raise ToolError("TLC error on %s:\n%s" % (name, "\n".join(l for l in r.out.splitlines() if (" :> " not in l and "|->" not in l))[-3500:]))
     return r
 
 
